@@ -21,7 +21,7 @@ pub(crate) struct C18 {
     pub id: &'static str,
 }
 
-const TEMPLATES: &[&str] = &["nick_race_unreg", "first_join", "limit_slot", "oper_in_flight", "kick_part_nick", "msg_streams", "nick_race_reg", "invite_join", "password_reg_race", "mixed"];
+const TEMPLATES: &[&str] = &["nick_race_unreg", "first_join", "limit_slot", "oper_in_flight", "kick_part_nick", "msg_streams", "nick_race_reg", "invite_join", "password_reg_race", "mixed", "random", "random", "topic_mode_race"];
 
 fn esc_lines(v: &[String]) -> String {
     v.join("\u{1e}")
@@ -191,6 +191,36 @@ impl Check for C18 {
                     scripts.push((regs[0], vec![format!("INVITE {} {}", guest, ch), [format!("MODE {} -i", ch), format!("MODE {} +l 1", ch), format!("NAMES {}", ch)][r.below(3)].clone()]));
                     scripts.push((regs[1], vec![format!("JOIN {}", ch), format!("JOIN {}", ch)]));
                     scripts.push((regs[2], vec![format!("JOIN {}", ch), format!("NAMES {}", ch)]));
+                }
+            }
+            "random" => {
+                // model-guided commands of 2-4 connections, all generated against the pre-burst state
+                let kinds = [K::Join, K::Join, K::Part, K::Kick, K::Nick, K::ModeChan, K::ModeChan, K::Privmsg, K::Privmsg, K::Notice, K::Topic, K::Invite, K::Names, K::Who, K::Whois, K::ModeUser, K::Away, K::Lusers, K::List, K::ModeQuery, K::Oper, K::Ison];
+                for &c in regs.iter().take(r.range(2, 4)) {
+                    let mut s = vec![];
+                    for _ in 0..r.range(1, 3) {
+                        let k = kinds[r.below(kinds.len())];
+                        if let Some(l) = g.dry(k, c) {
+                            // texts must stay unique across the burst
+                            let l = if l.starts_with("PRIVMSG") || l.starts_with("NOTICE") { format!("{} s{}", l, num(&mut seqno)) } else { l };
+                            s.push(l);
+                        }
+                    }
+                    if !s.is_empty() {
+                        scripts.push((c, s));
+                    }
+                }
+            }
+            "topic_mode_race" => {
+                if regs.len() >= 3 {
+                    let ch = "#tm".to_string();
+                    for &c in regs.iter().take(3) {
+                        g.say(c, &format!("JOIN {}", ch));
+                    }
+                    let n1 = nick_of(&g, regs[1]);
+                    scripts.push((regs[0], vec![[format!("MODE {} +t", ch), format!("MODE {} +m", ch), format!("MODE {} +o {}", ch, n1)][r.below(3)].clone(), format!("TOPIC {} :by founder s{}", ch, num(&mut seqno)), format!("MODE {}", ch)]));
+                    scripts.push((regs[1], vec![format!("TOPIC {} :by member s{}", ch, num(&mut seqno)), format!("PRIVMSG {} :member speaks s{}", ch, num(&mut seqno)), format!("TOPIC {}", ch)]));
+                    scripts.push((regs[2], vec![format!("TOPIC {}", ch), format!("KICK {} {} :x", ch, n1), format!("LIST {}", ch)]));
                 }
             }
             _ => {
@@ -615,7 +645,7 @@ async fn exec_inner(t: Trace, prop: &'static str) -> Outcome {
             m
         })
         .collect();
-    let probe_chans = ["#race", "#lim", "#kpn", "#str", "#inv", "#mix", "#fresh0", "#fresh1"];
+    let probe_chans = ["#race", "#lim", "#kpn", "#str", "#inv", "#mix", "#fresh0", "#fresh1", "#tm", "#a", "#b", "#c", "#d"];
     let mut probes: Vec<(usize, String)> = vec![];
     for &c in &live {
         probes.push((c, "PING final".to_string()));
